@@ -91,7 +91,8 @@ def exitProp (trace : List (Rec × List Rec)) : Option String :=
     if outcome obs != "result" then none
     else
       let nchars := (op.ints "ckind").length
-      match exitRun nchars (op.int "cycles") ({ clock := 0, dealt := 0, taken := 0 } : XSt Float) (eventsOf obs) with
+      let nunits := nchars + (op.list "ehp").length
+      match exitRun nchars nunits (op.int "cycles") ({ clock := 0, dealt := 0, taken := 0 } : XSt Float) (eventsOf obs) with
       | .error m => some m
       | .ok x =>
         match obs.find? (·.name == "result") with
